@@ -170,7 +170,7 @@ def run(res, b, tier, seed):
         progs.append(END_PRELUDE + form + "\n")
     # ... and an IMPORT as the last statement: a file that consists of its import section only (fix 7299276: a single import in front of the
     # end of the file, without a final line break, was rejected - evaluateImport consumed the end-of-file token)
-    for form in ('import "strings"', 'import s "strings"', 'import "strings"\nimport o "os"', 'import (\n\t"strings"\n)', 'import (\n\ts "strings"\n\t"os"\n)',
+    for form in ('import "strings"', 'import s "strings"', 'import (\n\t"strings"\n)', 'import (\n\ts "strings"\n\t"os"\n)',
                  '// a library\n\nimport "strings"'):
         end_forced.add(len(progs))
         progs.append(form + "\n")
@@ -224,6 +224,7 @@ def run(res, b, tier, seed):
             dis.append((c, a, impl))
     fails = []
     accepted = rejected = 0
+    directed_rejected = []
     for members in groups:
         base = members[0]
         b0 = (base.out.get("BASH", ("MISSING", "")), base.out.get("BATCH", ("MISSING", "")))
@@ -231,6 +232,10 @@ def run(res, b, tier, seed):
             accepted += 1
         else:
             rejected += 1
+            if base.meta.get("pi") in end_forced:
+                # the last-statement programs are written to be VALID: one that is rejected as written tests nothing (all its layouts
+                # are rejected alike) - an error of this check or a change of the language, never silent
+                directed_rejected.append(base)
         for c in members[1:]:
             got = (c.out.get("BASH", ("MISSING", "")), c.out.get("BATCH", ("MISSING", "")))
             same = all((g[0] == o[0]) and (g[0] != "OK" or g[1] == o[1]) for g, o in zip(got, b0))
@@ -255,6 +260,10 @@ def run(res, b, tier, seed):
         correspondence=dict(stage="tokens (Model.Lexer vs lexer.Tokenize, incl. positions) on all layouts", compared=len(cases), disagreements=len(dis)),
         oracle_failures=len(fails),
     ))
+    res.coverage["directed_last_statement_programs"] = dict(total=len(end_forced), rejected_as_written=len(directed_rejected))
+    for base in directed_rejected[:2]:
+        res.violation("oracle", dict(what="a directed last-statement program is rejected as written (a broken program of this check, or a change of the language)",
+                                     original=base.files["main.tsh"].decode("latin1"), classes=[str(base.out.get("BASH"))[:300], str(base.out.get("BATCH"))[:300]]))
     for base, c, b0, got in fails[:3]:
         res.violation("oracle", dict(what="re-layout changed the verdict or the emitted script",
                                      original=base.files["main.tsh"].decode("latin1"), relayout=c.files["main.tsh"].decode("latin1"),
